@@ -1,5 +1,8 @@
 ------------------------------ MODULE MC_DFTDerive ------------------------------
 (* Derivation chains of length <= MaxLen over representative option records; one JSON line per state *)
+(* The harness builds the object of every exported state (base by constructor, then the path) and runs *)
+(* DFTMachine histories ON THAT OBJECT: calls interleaved with init_fftw_plan / create_temporaries, so   *)
+(* every (dir, sign, hc, field, impl, shifts) record x every node of the chain receives plan / temps.   *)
 EXTENDS DFTDerive, Json, IOUtils
 MC_MaxLen == IF IOEnv.C18_DLEN = "3" THEN 3 ELSE 2
 Big == IOEnv.C18_DLEN = "3"
